@@ -188,6 +188,7 @@ static void gw_mismatch(const int *prog, int n, int step, const char *sig, const
 static uint64_t gw_skip;          /* programs with ordinal < gw_skip are enumerated but not executed (resume after a child died) */
 static uint64_t gw_ordinal;
 static int gw_sampled; static uint64_t gw_abandoned;     /* GW_PROGS: behaviours sampled by TLC's simulation mode */
+static void (*gw_final_hook)(void);                      /* driver's end-of-enumeration check (may report a mismatch) */
 static int gw_forked;             /* child of the fork/resume supervisor: a mismatch ends the child, the supervisor resumes after it */
 /* ---- current program (for sanitizer death callback) ---- */
 static VP_TLS const int *gw_cur_prog;
@@ -562,6 +563,7 @@ static int gw_main(int argc, char **argv) {
                 gw_cover(getenv("GW_COVER_TAIL") ? atoi(getenv("GW_COVER_TAIL")) : 4, seed);
                 if (walks) gw_walks(walks, L, seed + 17);
                 }
+                if (gw_final_hook) gw_final_hook();
                 gw_print_stats(complete);
                 fflush(stdout);
                 _exit(0);
@@ -593,6 +595,7 @@ static int gw_main(int argc, char **argv) {
     gw_cover(getenv("GW_COVER_TAIL") ? atoi(getenv("GW_COVER_TAIL")) : 4, seed);
     if (walks) gw_walks(walks, L, seed + 17);
     }
+    if (gw_final_hook) gw_final_hook();
     gw_print_stats(complete);
     return 0;
 }
